@@ -137,7 +137,12 @@ def _work(pid, tier, master, indices, use_cases):
            'digests': {}, 'wall': 0.0, 'states': set()}
     t0 = time.time()
     for i in indices:
-        scn = cases[i] if cases is not None else scenario_for(mod, master, tier, i)
+        try:
+            scn = cases[i] if cases is not None else scenario_for(mod, master, tier, i)
+        except Exception as e:
+            out['n'] += 1
+            out['harness'].append((i, 'scenario generation failed: %r\n%s' % (e, traceback.format_exc()[-2000:]), None))
+            continue
         if cases is not None:
             scn = copy.deepcopy(scn)
             scn.setdefault('seed', run_seed(master, pid, i) & 0xFFFFFFFF)
@@ -323,7 +328,11 @@ def explore(mod, tier, master, runs_override=None, workers=None, no_selftest=Fal
         try:
             for f in as_completed(futs, timeout=max(5.0, deadline - time.time())):
                 pending.discard(f)
-                r = f.result()
+                try:
+                    r = f.result()
+                except Exception as e:
+                    agg['harness'].append((futs[f][0], 'worker failed: %r' % (e,), None))
+                    continue
                 agg['n'] += r['n']
                 agg['nontrivial'] |= r['nontrivial']
                 agg['viol'] += r['viol']
